@@ -18,7 +18,7 @@ from ..oracle import c08_compare as CMP
 from ..oracle import c08_units as U
 from .. import cover
 
-RULE = ('four case groups (atom_data, atom_dump, table, poscar).  Classes are round-robin functions of the case index: '
+RULE = ('six case groups (atom_data, atom_dump, table, poscar, scale, shapes).  Classes are round-robin functions of the case index: '
         'atom_data = 21 atom styles (incl. 3 hybrids) x 8 unit styles (mixed radix, every pair within 168 cases) with cell kind '
         '(7 families + strongly tilted) / origin class / 8 pbc settings / position class (inside, mixed inside-outside-on-face-'
         'near-face, all on faces, several cells away) / type class (single, contiguous, gaps, type 1 unused) / float format / '
@@ -28,13 +28,23 @@ RULE = ('four case groups (atom_data, atom_dump, table, poscar).  Classes are ro
         'coordinate keywords x 3 scale factors x 3 symbol modes x 4 type classes x 9 cell kinds (incl. rotated) x 3 origins.  '
         'Every text is loaded from a string, a path and an open binary stream (text stream: documented refusal), again after '
         'shuffling atom lines (formats with ids) and after inserting the comments / blank lines the format manual allows; '
-        'truncated data files must raise FileFormatError.  Ground truth = the generated numpy arrays (never re-read from atomman). '
+        'truncated data files must raise FileFormatError.  scale = cells of physical size (edges 3..30 angstrom, i.e. 1e-10 in a si '
+        'file, 1e-8 in cgs) in 8 unit styles x 4 tilt classes (orthogonal, all tilt factors > 1.3 angstrom, all < 1 angstrom, all '
+        '1e-5..1e-2 angstrom) x 7 patterns of non-zero tilt factors, per-atom values O(1) in working or in file units, written '
+        'with exponent formats as data file and as dump file; shapes = per-atom properties of shape (), (1,), (2,), (3,), (1,1), '
+        '(1,3), (3,1), (3,3), (1,1,1), (2,2) each as float and as integer plus one bool, natoms 1/2/3/more, 4 ways of naming them '
+        'to the writer, through table and atom_dump with the returned conversion table (as given and spelled as parallel lists).  '
+        'Ground truth = the generated numpy arrays (never re-read from atomman). '
         'A case is non-trivial when it has a tilted or shifted cell, an atom outside the cell or on a face, more than one '
         'atom type, or a unit style whose length unit is not the angstrom; distinct = distinct fingerprint of '
         '(cell, origin, positions, types, class signature).')
 ASSUMPTIONS = [
     'cells are right-handed, LAMMPS-oriented for the LAMMPS formats (POSCAR also arbitrarily rotated), volume >= 10 % of abc',
-    'numbers are O(1..1e3) in the units of the file, so fixed-point formats keep at least 6 significant digits',
+    'groups atom_data/atom_dump/table/poscar: numbers are O(1..1e3) in the units of the file, so fixed-point formats keep at least 6 '
+    'significant digits; groups scale/shapes: cells are 3..30 angstrom whatever the file unit and only exponent formats (>= 8 '
+    'digits; >= 13 for tilt factors below 0.01 angstrom) are used, whose precision is relative at any scale',
+    'tilt factors are either exactly zero or at least 1e-5 angstrom (1e-6 of the cell): the cell constructor itself zeroes '
+    'components below 1e-9 of the largest one',
     'comparison bound = half a unit in the last printed place (times 1+3*|image flags| for data files, propagated through the '
     'cell for scaled/direct coordinates) plus 1e-12 relative floating-point slack',
     'data files: positions are compared after the reader re-applied the image flags; along non-periodic directions the cell may '
@@ -691,6 +701,240 @@ def group_poscar(env):
             pass
 
 
+# ------------------------------------------------------------------------------------------------ physical length scale
+# Every other group gives the system a size of O(1..10) *file units* (so that fixed-point formats keep their digits): a cell
+# written in si units is then metres wide.  Here the cell is 3..30 angstrom whatever the unit style, i.e. 1e-10..1e-9 in a
+# si file, 1e-8..1e-7 in cgs, 1e-4..1e-3 in micro ...; exponent formats only, whose precision is relative at any scale.
+SCALE_FMT = ['%.13e', '%.16e', '%.10e', '%.8e']
+SCALE_STYLES = ['atomic', 'charge', 'full', 'dipole', 'sphere', 'hybrid charge molecular', 'electron']
+MASKNAMES = {(1, 1, 1): 'xy+xz+yz', (0, 0, 1): 'yz', (1, 0, 0): 'xy', (0, 1, 0): 'xz', (1, 1, 0): 'xy+xz', (1, 0, 1): 'xy+yz',
+             (0, 1, 1): 'xz+yz'}
+
+
+def auto_split(items):
+    """What a dump file gives back without a conversion table: standard LAMMPS names are recognised, any other
+    multi-column property comes back as one scalar property per column, named as in the file."""
+    out = {}
+    for name, (arr, knd, Fq) in items.items():
+        if arr.ndim == 1 or name in [s[0] for s in STANDARD]:
+            out[name] = (arr, knd, Fq)
+        else:
+            for idx in np.ndindex(*arr.shape[1:]):
+                out[name + ''.join(f'[{j}]' for j in idx)] = (arr[(slice(None),) + idx], knd, Fq)
+    return out
+
+
+def group_scale(env):
+    ctx, rec, am = env.ctx, env.rec, env.am
+    ntc, nun = len(GS.TILTCLASSES), len(UNITS)
+    block = ntc * nun
+    n = ctx.pick(block * 3, block * 21)
+    for i in ctx.cases('scale', n):
+        rng = ctx.rng
+        units = UNITS[i % nun]
+        tiltclass = GS.TILTCLASSES[(i // nun) % ntc]
+        rnd = i // block
+        mask = GS.TILTMASKS[(i + rnd) % len(GS.TILTMASKS)]         # 7 masks against 8 unit styles: every mask in every tilt class
+        origin = ('zero', 'near')[(i // 2 + rnd) % 2]
+        pbc = cells.PBCS[7] if (i + i // nun) % 3 else cells.PBCS[(i // 3 + rnd) % 8]
+        posclass = ('inside', 'mixed', 'far')[(i + i // nun + rnd) % 3]
+        typeclass = GS.TYPECLASSES[(i // 4 + rnd) % 4]
+        fmt = SCALE_FMT[(i + i // nun + rnd) % (2 if tiltclass == 'tilt-tiny' else 4)]
+        style = SCALE_STYLES[(i + i // nun + 2 * rnd) % len(SCALE_STYLES)]
+        withvel = (i // nun + rnd) % 2 == 0
+        magclass = ('physical', 'file')[(i // (2 * nun) + rnd) % 2]  # per-atom values O(1) working units / O(1) file units
+        natoms = natoms_for(ctx, rng, i + 2)
+        if not style_available(env, units, ST.quantities(style, withvel)):
+            rec.count('scale:style-without-unit-entry->atomic')
+            style = 'atomic'
+        F = lambda q: unit_factor(env, units, q)          # noqa: E731
+        Flen = F('length')
+        cell = GS.gen_tilt_cell(rng, tiltclass, mask, origin)
+        truth = GS.gen_truth(rng, None, origin, pbc, posclass, typeclass, 'none', natoms, cell=cell)
+        mname = MASKNAMES[mask] if tiltclass != 'orthogonal' else 'none'
+        sig = ('scale', units, tiltclass, mname, fmt, style, magclass)
+        rec.case(sig + (origin, posclass, typeclass), nontrivial=True,
+                 fp=fingerprint(truth['vects'], truth['origin'], truth['pos'], truth['atype'], sig))
+        count_truth(rec, 'scale', truth)
+        rec.count(f'class:scale:{units}:{tiltclass}')
+        rec.count(f'class:scale:tilts:{mname}')
+        rec.count(f'class:scale:values:{magclass}')
+        rec.count(f'class:scale:pbc:{"".join("1" if p else "0" for p in pbc)}')
+        if i < block and i % 5 == 0:
+            rec.sample(dict(group='scale', units=units, tiltclass=tiltclass, tilts_angstrom=cell['tilts'], cell=truth['vects'],
+                            one_file_length_unit_in_angstrom=Flen, float_format=fmt, atom_style=style, pbc=pbc, natoms=natoms))
+        # ---- data file
+        props = gen_style_props(env, rng, truth, style, units if magclass == 'file' else 'lj', withvel)
+        items = {}
+        for name, knd, shape, q in ST.atoms_columns(style) + (ST.velocity_columns(style) if withvel else []):
+            items[name] = (props[name], knd, F(q))
+        e = CMP.expect_data(truth, fmt, Flen, items)
+        dkw = dict(atom_style=style, units=units, float_format=fmt)
+        text = None
+        with ctx.guard('atom_data dump to a string', 'atom_data:dump:exception'):
+            text = build(env, truth, props).dump('atom_data', safecopy=bool(i % 2), return_info=False, **dkw)
+        if isinstance(text, str):
+            lkw = dict(pbc=truth['pbc'], units=units)
+            if (i // 2) % 2 == 0:
+                lkw['atom_style'] = style
+            load_and_compare(env, 'atom_data', 'string', 'physical-scale', text, e, lkw)
+            if i % 2:
+                path = os.path.join(env.tmp, f'scale_{i}.dat')
+                with open(path, 'w', encoding='UTF-8') as f:
+                    f.write(text)
+                load_and_compare(env, 'atom_data', 'path', 'physical-scale', path, e, lkw)
+                os.remove(path)
+            else:
+                load_and_compare(env, 'atom_data', 'stream', 'physical-scale', io.BytesIO(text.encode()), e, lkw)
+            sh = TX.data_decorate(TX.data_shuffle(text, rng), rng, drop_style_comment=False)
+            load_and_compare(env, 'atom_data', 'string', 'physical-scale:shuffled+decorated', sh, e, lkw)
+            rec.count(f'loads:scale:atom_data:{units}:{tiltclass}')
+        # ---- dump file of the same system
+        Fv = F('velocity')
+        dprops = {'velocity': GS.gen_prop(rng, natoms, 'f', (3,), Fv if magclass == 'file' else 1.0),
+                  'disp': GS.gen_prop(rng, natoms, 'f', (3,)), 'cna': GS.gen_prop(rng, natoms, 'i', ())}
+        ditems = {'velocity': (dprops['velocity'], 'f', Fv), 'disp': (dprops['disp'], 'f', 1.0), 'cna': (dprops['cna'], 'i', 1.0)}
+        ditems['atom_id'] = (np.arange(1, natoms + 1), 'i', 1.0)
+        dkw = dict(lammps_units=units, float_format=fmt)
+        text = pinfo = None
+        with ctx.guard('atom_dump dump to a string', 'atom_dump:dump:exception'):
+            text, pinfo = build(env, truth, dprops).dump('atom_dump', return_prop_info=True, **dkw)
+        if isinstance(text, str):
+            lkw = dict(lammps_units=units)
+            e_auto = CMP.expect_dump(truth, fmt, Flen, auto_split(ditems))
+            e_full = CMP.expect_dump(truth, fmt, Flen, ditems)
+            load_and_compare(env, 'atom_dump', 'string', 'physical-scale', text, e_auto, lkw)
+            sh = TX.dump_shuffle(text, rng)
+            load_and_compare(env, 'atom_dump', 'stream' if i % 2 else 'string', 'physical-scale:returned-prop_info',
+                             io.BytesIO(sh.encode()) if i % 2 else sh, e_full, dict(lkw, prop_info=pinfo))
+            rec.count(f'loads:scale:atom_dump:{units}:{tiltclass}')
+
+
+# ------------------------------------------------------------------------------------------------ per-atom property shapes
+SHAPE_VARIANTS = ['all-default', 'names', 'shape-lists', 'prop_info']
+BOOL_SHAPES = [(1,), (), (1, 1), (3,)]
+
+
+def lists_from(pinfo):
+    """The returned conversion table spelled as the loader's parallel-list parameters (same information)."""
+    return dict(prop_name=[p['prop_name'] for p in pinfo], table_name=[list(p['table_name']) for p in pinfo],
+                shape=[tuple(p['shape']) for p in pinfo], unit=[p['unit'] for p in pinfo], dtype=[p['dtype'] for p in pinfo])
+
+
+def group_shapes(env):
+    """Every per-atom shape in GS.SHAPES, as float and as integer property (plus one bool), through table and atom_dump
+    with the conversion table the writer returned; cells of physical size, positions in the unit of the file."""
+    ctx, rec, am, uc = env.ctx, env.rec, env.am, env.uc
+    nv = len(SHAPE_VARIANTS)
+    n = ctx.pick(nv * 12, nv * 120)
+    for i in ctx.cases('shapes', n):
+        rng = ctx.rng
+        variant = SHAPE_VARIANTS[i % nv]
+        rnd = i // nv
+        units = UNITS[(i + rnd) % len(UNITS)]
+        lunit = TABLE_UNITS[(i // 2 + rnd) % len(TABLE_UNITS)][0]
+        natoms = (1, 2, 3, None)[(i + rnd) % 4]
+        if natoms is None:
+            natoms = int(rng.integers(4, 10))
+        tiltclass = GS.TILTCLASSES[(i // 2 + rnd) % len(GS.TILTCLASSES)]
+        mask = GS.TILTMASKS[i % len(GS.TILTMASKS)]
+        origin = ('zero', 'near')[(i + rnd // 2) % 2]
+        posclass = ('inside', 'mixed')[(i // 2) % 2]
+        typeclass = GS.TYPECLASSES[(i + rnd) % 4]
+        fmt = SCALE_FMT[(i + rnd) % 3]
+        pbc = cells.PBCS[7] if i % 3 else cells.PBCS[(i // 3) % 8]
+        cell = GS.gen_tilt_cell(rng, tiltclass, mask, origin)
+        truth = GS.gen_truth(rng, None, origin, pbc, posclass, typeclass, 'none', natoms, cell=cell)
+        # the properties, in an order that differs from case to case
+        spec = [(GS.shape_name(k, sh), k, sh) for sh in GS.SHAPES for k in ('f', 'i')]
+        bshape = BOOL_SHAPES[rnd % len(BOOL_SHAPES)]
+        spec.append((GS.shape_name('b', bshape), 'b', bshape))
+        spec = [spec[j] for j in rng.permutation(len(spec))]
+        props, items = {}, {}
+        for name, knd, shape in spec:
+            props[name] = GS.gen_prop(rng, natoms, knd, shape)
+            items[name] = (props[name], knd, 1.0)
+            rec.count(f'class:shapes:{knd}:{shape}')
+        names = [s[0] for s in spec]
+        sig = ('shapes', variant, natoms if natoms < 4 else 'n', fmt)
+        rec.case(sig + (tiltclass, origin, posclass, typeclass, units, lunit), nontrivial=True,
+                 fp=fingerprint(truth['vects'], truth['origin'], truth['pos'], truth['atype'], sig))
+        count_truth(rec, 'shapes', truth)
+        rec.count(f'class:shapes:variant:{variant}')
+        rec.count(f'class:shapes:natoms:{natoms if natoms < 4 else "more"}')
+        if i < 2 * nv:
+            rec.sample(dict(group='shapes', variant=variant, natoms=natoms, float_format=fmt,
+                            properties={nm: dict(kind=k, per_atom_shape=sh) for nm, k, sh in spec}))
+        # ---- table
+        tkw = dict(float_format=fmt)
+        Flen = 1.0
+        if variant == 'names':
+            tkw.update(prop_name=['atype', 'pos'] + names)
+        elif variant == 'shape-lists':
+            Flen = float(uc.set_in_units(1.0, lunit))
+            tkw.update(prop_name=['atype', 'pos'] + names, shape=[(), (3,)] + [s[2] for s in spec],
+                       unit=[None, lunit] + [None] * len(spec))
+        elif variant == 'prop_info':
+            Flen = float(uc.set_in_units(1.0, lunit))
+            tkw.update(prop_info=[dict(prop_name='a_id', table_name='id'), dict(prop_name='atype'),
+                                  dict(prop_name='pos', shape=(3,), unit=lunit)]
+                       + [dict(prop_name=nm, shape=sh) for nm, k, sh in spec])
+        text = pinfo = None
+        with ctx.guard('table dump to a string', 'table:dump:exception'):
+            text, pinfo = build(env, truth, props).dump('table', return_prop_info=True, **tkw)
+        if isinstance(text, str):
+            path = write_path(env, f'shapes_{i}.txt', text, lambda p: build(env, truth, props).dump('table', f=p, **tkw))
+            v = truth['vects']
+            mkbox = lambda: am.Box(avect=v[0].copy(), bvect=v[1].copy(), cvect=v[2].copy(), origin=truth['origin'].copy())   # noqa: E731
+            e = CMP.expect_table(truth, fmt, items, pos_F=Flen)
+            three_ways_table(env, text, path, e, mkbox, dict(prop_info=pinfo), 'shapes:returned-prop_info', i)
+            load_and_compare(env, 'table', 'string', 'shapes:returned-as-lists', text, e, dict(box=mkbox(), **lists_from(pinfo)))
+            if variant == 'prop_info':
+                sh = TX.table_decorate(TX.table_shuffle(text, rng, 0), rng, 0)
+                load_and_compare(env, 'table', 'string', 'shapes:shuffled+decorated', sh, e,
+                                 dict(box=mkbox(), comment='#', prop_info=pinfo))
+            rec.count('shapes:table:evaluated')
+            try:
+                os.remove(path)
+            except OSError:
+                pass
+        # ---- dump file
+        F = unit_factor(env, units, 'length')
+        dkw = dict(lammps_units=units, float_format=fmt)
+        ditems = dict(items)
+        ditems['atom_id'] = (np.arange(1, natoms + 1), 'i', 1.0)
+        if variant == 'names':
+            dkw.update(prop_name=['atom_id', 'atype', 'pos'] + names)
+        elif variant == 'shape-lists':
+            dkw.update(prop_name=['atom_id', 'atype', 'pos'] + names, shape=[(), (), (3,)] + [s[2] for s in spec])
+        elif variant == 'prop_info':
+            # (no unit entry for pos: the positions are then written as they are, the cell in file units)
+            dkw.update(prop_info=[dict(prop_name='atom_id', table_name='id'), dict(prop_name='atype', table_name='type'),
+                                  dict(prop_name='pos', shape=(3,))] + [dict(prop_name=nm, shape=sh) for nm, k, sh in spec])
+        text = pinfo = None
+        with ctx.guard('atom_dump dump to a string', 'atom_dump:dump:exception'):
+            text, pinfo = build(env, truth, props).dump('atom_dump', return_prop_info=True, **dkw)
+        if isinstance(text, str):
+            lkw = dict(lammps_units=units)
+            e_full = CMP.expect_dump(truth, fmt, F, ditems)
+            load_and_compare(env, 'atom_dump', 'string', 'shapes:returned-prop_info', text, e_full, dict(lkw, prop_info=pinfo))
+            sh = TX.dump_shuffle(text, rng)
+            if i % 2:
+                path = os.path.join(env.tmp, f'shapes_{i}.dump')
+                with open(path, 'w', encoding='UTF-8') as f:
+                    f.write(sh)
+                load_and_compare(env, 'atom_dump', 'path', 'shapes:returned-prop_info', path, e_full, dict(lkw, prop_info=pinfo))
+                os.remove(path)
+            else:
+                load_and_compare(env, 'atom_dump', 'stream', 'shapes:returned-prop_info', io.BytesIO(sh.encode()), e_full,
+                                 dict(lkw, prop_info=pinfo))
+            load_and_compare(env, 'atom_dump', 'string', 'shapes:returned-as-lists', sh, e_full, dict(lkw, **lists_from(pinfo)))
+            if variant != 'prop_info':
+                e_auto = CMP.expect_dump(truth, fmt, F, auto_split(ditems))
+                load_and_compare(env, 'atom_dump', 'string', 'shapes:file-alone', text, e_auto, lkw)
+            rec.count('shapes:atom_dump:evaluated')
+
+
 # ------------------------------------------------------------------------------------------------ run
 REACH = [('atomman/load/atom_data/load.py', 304, 315, 'data:image-flags-reapplied', 4),
          ('atomman/load/atom_data/load.py', 231, 244, 'data:format-errors', 3),
@@ -712,6 +956,8 @@ def run(ctx):
         group_dump(env)
         group_table(env)
         group_poscar(env)
+        group_scale(env)
+        group_shapes(env)
     finally:
         shutil.rmtree(env.tmp, ignore_errors=True)
     for f, lo, hi, name, _ in REACH:
@@ -759,3 +1005,42 @@ def run(ctx):
     rec.floor('class:poscar:cell:rotated', 3)
     rec.floor('class:poscar:trailing-unused-types', 10)
     rec.floor('class:poscar:trailing-unused-types:no-symbols-line', 3)
+    # physical length scale: every unit style x tilt class, every non-zero pattern of the tilt factors, both LAMMPS formats
+    for u in UNITS:
+        for tc in GS.TILTCLASSES:
+            rec.floor(f'class:scale:{u}:{tc}', 3)
+            rec.floor(f'loads:scale:atom_data:{u}:{tc}', 3)
+            rec.floor(f'loads:scale:atom_dump:{u}:{tc}', 3)
+    for m in MASKNAMES.values():
+        rec.floor(f'class:scale:tilts:{m}', 6)
+    for mc in ('physical', 'file'):
+        rec.floor(f'class:scale:values:{mc}', 30)
+    rec.floor('class:scale:atoms-outside', 20)
+    rec.floor('class:scale:origin-nonzero', 20)
+    for via in ('string', 'path', 'stream'):
+        rec.floor(f'loads:atom_data:{via}:physical-scale', 20)
+    rec.floor('loads:atom_data:string:physical-scale:shuffled+decorated', 60)
+    rec.floor('loads:atom_dump:string:physical-scale', 60)
+    rec.floor('loads:atom_dump:string:physical-scale:returned-prop_info', 20)
+    rec.floor('loads:atom_dump:stream:physical-scale:returned-prop_info', 20)
+    # per-atom property shapes: every shape as float and as integer, through both formats, every natoms class
+    for sh in GS.SHAPES:
+        for k in ('f', 'i'):
+            rec.floor(f'class:shapes:{k}:{sh}', 40)
+    for sh in BOOL_SHAPES:
+        rec.floor(f'class:shapes:b:{sh}', 4)
+    for v in SHAPE_VARIANTS:
+        rec.floor(f'class:shapes:variant:{v}', 10)
+    for k in ('1', '2', '3', 'more'):
+        rec.floor(f'class:shapes:natoms:{k}', 8)
+    rec.floor('shapes:table:evaluated', 40)
+    rec.floor('shapes:atom_dump:evaluated', 40)
+    for via in ('string', 'path', 'stream'):
+        rec.floor(f'loads:table:{via}:shapes:returned-prop_info', 40)
+    rec.floor('loads:table:string:shapes:returned-as-lists', 40)
+    rec.floor('loads:table:string:shapes:shuffled+decorated', 10)
+    rec.floor('loads:atom_dump:string:shapes:returned-prop_info', 40)
+    rec.floor('loads:atom_dump:path:shapes:returned-prop_info', 15)
+    rec.floor('loads:atom_dump:stream:shapes:returned-prop_info', 15)
+    rec.floor('loads:atom_dump:string:shapes:returned-as-lists', 40)
+    rec.floor('loads:atom_dump:string:shapes:file-alone', 30)
